@@ -28,7 +28,10 @@ func (u *UseCase) UpdateTx(ctx context.Context, oldTxId, newTxId string, filter 
 		u.txStore.Put(newTxId, newTx)
 	}
 
-	newTx.RLock()
+	// The conflict check and the publication below must not be separated: the
+	// main transaction stays write-locked from the check until the new versions
+	// are in place, otherwise two conflicting commits can both pass the check.
+	newTx.Lock()
 	var (
 		files     = make([]model.File, 0, tx.Len())
 		freeNodes = make([]*core.Node[model.File], 0, tx.Len())
@@ -63,25 +66,23 @@ func (u *UseCase) UpdateTx(ctx context.Context, oldTxId, newTxId string, filter 
 			freeNodes = append(freeNodes, n)
 		}
 	}
-	newTx.RUnlock()
-	if err != nil {
+	if err != nil || len(files) == 0 {
+		newTx.Unlock()
 		return
 	}
 
-	if len(files) == 0 {
-		return
-	}
-
-	newTx.Lock()
 	u.allStore.Lock()
 	defer func() {
 		u.allStore.Unlock()
 		newTx.Unlock()
 	}()
 
+	// One sequence number for the whole commit: a snapshot transaction's begin
+	// number then lies before or after all of its versions, never between them.
+	seq := sequence.Next()
 	err = u.fileRepo.RunTransaction(ctx, func(ctx context.Context) error {
 		for i := range files {
-			files[i].Seq = sequence.Next()
+			files[i].Seq = seq
 			err = u.fileRepo.Set(ctx, files[i])
 			if err != nil {
 				return fmt.Errorf("store to tx: %w", err)
